@@ -36,6 +36,7 @@ def check(ck):
     r07_4(ck)
     r07_5(ck)
     r07_6(ck)
+    r07_7(ck)
 
 
 def popped_keys(fnode, upd):
@@ -435,3 +436,61 @@ def r07_6(ck):
             v.rule = NEW
     for r in OLD:
         ck.rules.pop(r, None)
+
+
+def r07_7(ck):
+    ck.rule('R07.7', 'views are built after the hierarchy is complete and '
+            'from declarations that belong to the declaring process: in the '
+            'store entry point set_value(initial_state) precedes '
+            'build_topology_views, generate_state builds views after '
+            'generate; the sub-schema a store keeps is a copy of what a '
+            'process declared (other processes are merged into it later); '
+            'the states reach the wrapped process in the declared argument '
+            'order (C13 R13.1)')
+    ms = ck.fn('Engine._make_store', 'core.engine')
+    cfg = cfg_of(ms.node)
+    sets = [c for c in A.calls_in(ms.node, 'set_value')]
+    builds = [c for c in A.calls_in(ms.node, 'build_topology_views')]
+    ok = bool(sets) and bool(builds) and cfg.dominates(
+        cfg.node(sets[0]), cfg.node(builds[0]))
+    ck.require(ok, 'R07.7', ms, builds[0] if builds else ms.node.name,
+               'the initial state is installed before the views are built',
+               'with a pre-built store the views are cached before '
+               'set_value(initial_state) creates the children named in the '
+               'initial state: glob ports do not show them', None)
+    gs = ck.fn('generate_state', 'core.store')
+    c2 = cfg_of(gs.node)
+    g1 = [c for c in A.calls_in(gs.node, 'generate')]
+    b1 = [c for c in A.calls_in(gs.node, 'build_topology_views')]
+    ok = bool(g1) and bool(b1) and c2.dominates(c2.node(g1[0]),
+                                                c2.node(b1[0]))
+    ck.require(ok, 'R07.7', gs, b1[0] if b1 else gs.node.name,
+               'generate_state builds the views after generating the state',
+               None)
+    asc = ck.fn('Store._apply_subschema_config', 'core.store')
+    param = A.params_of(asc.node)[1]
+    n = 0
+    for s2 in A.walk_no_nested(asc.node):
+        if isinstance(s2, ast.Assign) and A.unparse(
+                s2.targets[0]) == 'self.subschema':
+            n += 1
+            v = s2.value
+            ok = isinstance(v, ast.Call) and A.call_name(v) == 'deep_merge' \
+                and A.unparse(A.arg_of(v, 0)) == 'self.subschema'
+            if ok:
+                a1 = A.arg_of(v, 1)
+                ok = isinstance(a1, ast.Call) and A.call_name(a1) in (
+                    'deep_copy_internal', 'deepcopy') and param in \
+                    A.names_in(a1)
+            ck.require(ok, 'R07.7', asc, s2,
+                       'the store keeps a copy of the declared sub-schema',
+                       'the sub-schema kept by the store (%s) shares '
+                       'dictionaries with the schema of the process that '
+                       'declared it: the declarations of other processes '
+                       'are merged into that process\'s schema and it is '
+                       'shown variables it never declared' % A.short(v, 50),
+                       s2)
+    ck.floor('R07.7', n, 1, 'assignments of self.subschema')
+    from . import c13
+    c13.r13_1(ck, only=('update_condition', 'next_update',
+                        'calculate_timestep'), rule='R07.7')
